@@ -240,6 +240,13 @@ fn cells(tier: Tier, seed: u64) -> Vec<Cell> {
             v.push(Cell { k, n, trials, rng, seed: mix(seed, (k * 100_003 + n) as u64), prefill: 0 });
         }
     }
+    // generated k (not only powers of two) across the three borders
+    for _ in 0..tier.pick(4, 16) {
+        let k = 5 + g.below(60) as usize;
+        for n in [k + 1, 2 * k + 1, 4 * k, 4 * k + 1] {
+            v.push(Cell { k, n, trials: (hits / 4.0 * n as f64 / k as f64).ceil() as u32, rng: RngKind::Small, seed: mix(seed, (k * 100_003 + n) as u64), prefill: 0 });
+        }
+    }
     if tier == Tier::Thorough {
         for &k in &[64usize, 100] {
             for n in [k + 1, 2 * k, 4 * k, 4 * k + 1] {
